@@ -98,7 +98,7 @@ pub fn note_walk<const B: usize>(class: Class, max_notes: usize, le_only: Option
                         assert!(t.subminor as u64 == ref_uint(data, x.ds + 12, 4, le));
                     }
                 }
-                kani::cover!(count == 1 && align == 8 && pos == 16, "second note at 16 after a padded first note, align 8");
+                kani::cover!(count == 1 && align == 4 && pos == 16, "second note at 16 after a padded first note, align 4");
                 kani::cover!(count == 1 && align == 3, "second note with alignment 3");
                 pos = x.next;
                 count += 1;
